@@ -133,6 +133,12 @@ func c07Run(rc *sim.RunCtx) {
 	}
 	obsFP := sim.Fingerprint(obsBC)
 
+	// the observed run receives its globals as a Map or (a quarter of the runs) as a *SyncMap, whatever kind of globals
+	// object the earlier runs on the VM were given
+	obsSync := t.Bool(1, 4)
+	if obsSync {
+		rc.Probe("observed-run-with-syncmap-globals")
+	}
 	runObs := func(vm *ugo.VM) c08Result {
 		w := sim.NewWorld(obsSpec, nil)
 		sc := &sim.StepCounter{Cap: 150000}
@@ -148,7 +154,11 @@ func c07Run(rc *sim.RunCtx) {
 					err = fmt.Errorf("Go panic escaped from VM.Run (recovery %v): %s at %s", recoverOn, msgClass(r), panicSite("github.com/ozanh/ugo"))
 				}
 			}()
-			ret, err = vm.Run(w.Globals, obsArgs...)
+			var globals ugo.Object = w.Globals
+			if obsSync {
+				globals = &ugo.SyncMap{Value: w.Globals}
+			}
+			ret, err = vm.Run(globals, obsArgs...)
 		}()
 		res := c08Result{out: sim.MakeOutcome(ret, err, w.Hist)}
 		if sc.Capped {
@@ -162,11 +172,23 @@ func c07Run(rc *sim.RunCtx) {
 	restorePool := pool.Install()
 	fresh1 := runObs(ugo.NewVM(obsBC).SetRecover(recoverOn))
 	fresh2 := runObs(ugo.NewVM(obsBC).SetRecover(recoverOn))
-	restorePool()
 	if !fresh1.out.Equal(fresh2.out) {
+		// Two brand-new VMs, same Bytecode, same globals, same arguments, same host world. Either the script prints
+		// something whose order Go leaves open (a generator fault: the run is discarded), or the outcome depends on
+		// what the process did before - then the first execution is the odd one and all later ones agree.
+		fresh3 := runObs(ugo.NewVM(obsBC).SetRecover(recoverOn))
+		fresh4 := runObs(ugo.NewVM(obsBC).SetRecover(recoverOn))
+		fresh5 := runObs(ugo.NewVM(obsBC).SetRecover(recoverOn))
+		restorePool()
+		if fresh2.out.Equal(fresh3.out) && fresh3.out.Equal(fresh4.out) && fresh4.out.Equal(fresh5.out) {
+			rc.Decoded = map[string]any{"observed": obsSrc, "first": fresh1.out.String(), "later": fresh2.out.String()}
+			rc.Fail("outcome-depends-on-process-history", "new-vm-differs:first-execution-in-process", "the same Bytecode run on five brand-new VMs with equal globals, arguments and host world: the first execution differs from the four later ones, which agree\n first: %s\n later: %s\nscript:\n%s", fresh1.out, fresh2.out, obsSrc)
+			return
+		}
 		rc.Discard = "workload-not-self-deterministic"
 		return
 	}
+	restorePool()
 	if fresh1.trace == "capped" {
 		rc.Discard = "workload-too-long"
 		return
